@@ -153,6 +153,26 @@ def run(pid, tier, seed, replay):
         t["lines"] += t3["lines"]
         t["distinct"] += t3["distinct"]
         t["generated"] += t3["generated"]
+        # Beyond the property (C14 speaks of the two crew hosts): the single-machine host cmd/msimple, which gives emitted
+        # messages back to its machine depth first (MsimpleOps.tla on top of the same step/walk/match model).  MC_Msimple.tla is
+        # model-checked on a concrete machine and runs of the real binary (built from the tree under test) are judged against
+        # it; a difference is reported as a NOTE and in the evidence, not as a violation of C14.
+        d = vlib.fresh_dir(pid, "mc_msimple")
+        vlib.run([sdrv, "msimple-config", os.path.join(d, "msimple_config.ndjson")])
+        r = vlib.tlc_ok(d, "MC_Msimple.tla", "MC_Msimple.cfg", workers=2, timeout=1800, heap="2g")
+        t["distinct"] += r["distinct"]
+        t["generated"] += r["generated"]
+        msbin = os.path.join(wd, "msimple")
+        vlib.run(["go", "build", "-o", msbin, "./cmd/msimple"], cwd=vlib.REPO, env=vlib.goenv(), timeout=900)
+        mout = os.path.join(wd, "msimple_runs.ndjson")
+        vlib.run([sdrv, "msimple-run", msbin, str(150 if tier == "quick" else 1500), str(seed), mout], timeout=6000)
+        jd4 = vlib.fresh_dir(pid, "judge_msimple")
+        bad4, stats4, t4 = vlib.judge_cases(jd4, "Trace_Msimple.tla", "Trace_Msimple.cfg", mout)
+        for b in bad4[:3]:
+            log("  NOTE (beyond the properties) cmd/msimple: %s at input(s) %s of run %s" % (",".join(sorted(b["msimple"])), b.get("at"), b["case"]["raw"][:300]))
+        log("  Msimple.tla: %d states, scenario invariants hold (pre-order printing, the latch holds the last set in printing order); %d runs of the real cmd/msimple binary judged, %d differ from the composed model" % (r["distinct"], t4["lines"], len(bad4)))
+        extra_stats.update({"msimple." + k: v for k, v in stats4.items()})
+        extra_stats["msimple.differing_runs"] = len(bad4)
     sysinfo = None
     if pid == "C15" and not replay:
         # the whole system as one state machine (captain, timers machine, store, firings, crash/restart)
